@@ -399,3 +399,57 @@ impl StructLayout {
         &self.offsets
     }
 }
+
+#[cfg(capy_verif)]
+pub mod verif_hooks {
+    use super::*;
+
+    /// installs an empty layout table for this process (first call wins; later calls clear it)
+    pub fn reset(pointer_bit_width: u32) {
+        let mut layouts = LAYOUTS.lock().unwrap();
+        let _ = layouts.take();
+        let _ = layouts.set(TyLayouts {
+            pointer_bit_width,
+            sizes: FxHashMap::default(),
+            alignments: FxHashMap::default(),
+            struct_layouts: FxHashMap::default(),
+            enum_layouts: FxHashMap::default(),
+        });
+    }
+
+    /// pretends `ty` was already laid out with the given size and alignment
+    pub fn seed(ty: Intern<Ty>, size: u32, align: u32) {
+        let mut layouts = LAYOUTS.lock().unwrap();
+        let layouts = layouts.get_mut().unwrap();
+        layouts.sizes.insert(ty, size);
+        layouts.alignments.insert(ty, align);
+    }
+
+    pub fn calc_single(ty: Intern<Ty>, pointer_bit_width: u32) {
+        super::calc_single(ty, pointer_bit_width)
+    }
+
+    pub fn size(ty: Intern<Ty>) -> u32 {
+        ty.size()
+    }
+
+    pub fn align(ty: Intern<Ty>) -> u32 {
+        ty.align()
+    }
+
+    pub fn stride(ty: Intern<Ty>) -> u32 {
+        ty.stride()
+    }
+
+    pub fn struct_offsets(ty: Intern<Ty>) -> Option<Vec<u32>> {
+        ty.struct_layout().map(|l| l.offsets().to_vec())
+    }
+
+    pub fn enum_discriminant_offset(ty: Intern<Ty>) -> Option<u32> {
+        ty.enum_layout().map(|l| l.discriminant_offset())
+    }
+
+    pub fn padding_needed_for(offset: u32, align: u32) -> u32 {
+        super::padding_needed_for(offset, align)
+    }
+}
